@@ -408,7 +408,7 @@ def run_unit(prop, unit, pcfg, cache, usize=8, seed=None, want_canary=True, forc
                           'kind': 'lost-anchor', 'line': f.line_start, 'rendered': '', 'labels': list(f.labels)})
         for lab in f.lost_sites:
             undec.append({'message': 'site obligation %s could not be placed' % lab, 'fn': f.path, 'module': f.module, 'kind': 'lost-anchor',
-                          'line': f.line_start, 'rendered': '', 'labels': [lab]})
+                          'line': f.line_start, 'rendered': '', 'labels': [lab], 'site_only': True})
     for cname in getattr(gen, 'lost_value_clauses', []):
         undec.append({'message': 'constant abi::%s is left out of verification (its initialiser is outside the verifier\'s reach); its reference-value clause is not decided' % cname,
                       'fn': None, 'module': 'abi', 'kind': 'lost-anchor', 'line': 0, 'rendered': '', 'labels': [], 'props': ['C19']})
@@ -418,6 +418,7 @@ def run_unit(prop, unit, pcfg, cache, usize=8, seed=None, want_canary=True, forc
         if x.get('fn') is None: return x.get('module') in mods or x.get('module') is None
         labs = x.get('labels') or []
         if any(prop in gen.clauses[l]['own'] or prop in gen.clauses[l]['dep'] for l in labs if l in gen.clauses): return True
+        if x.get('site_only'): return False          # the body is verified; only the clause that could not be placed is undecided
         m = x.get('module')
         return prop in safety_props(unitcfg, m) or prop in termination_props(unitcfg, m)
     undec = [x for x in undec if relevant(x)]
